@@ -255,16 +255,31 @@ def analyse(path):
         init = next((n for n in cdef.body if isinstance(n, ast.FunctionDef) and n.name == "__init__"), None) if cdef else None
         if init is None:
             return None
+        vals = []
         for n in ast.walk(init):
             if isinstance(n, ast.Assign):
                 for t in n.targets:
                     if isinstance(t, ast.Attribute) and t.attr == field:
-                        return n.value
-        return None
-    v = init_stores(fs, "chunks")
-    ok = isinstance(v, (ast.ListComp, ast.List)) or (isinstance(v, ast.Call) and isinstance(v.func, ast.Name) and v.func.id == "list")
-    out.append(("ctor_copies.FmtStr", "FmtStr.__init__", ok, "" if ok else f"self.chunks = {ast.unparse(v) if v is not None else '?'} may alias the argument"))
-    v = init_stores(ck, "_atts")
-    ok = isinstance(v, ast.Call) and isinstance(v.func, ast.Name) and v.func.id == "FrozenAttributes"
-    out.append(("ctor_copies.Chunk", "Chunk.__init__", ok, "" if ok else f"self._atts = {ast.unparse(v) if v is not None else '?'} may alias the argument"))
+                        vals.append(n.value)
+            elif isinstance(n, ast.AnnAssign) and n.value is not None and isinstance(n.target, ast.Attribute) and n.target.attr == field:
+                vals.append(n.value)
+        return vals
+
+    def verdict(vals, copying):
+        """True: every store builds a new container; False: some store puts a bare name / attribute (the argument itself) there;
+        None: a form this syntactic check does not know (undecided here - the value-model obligations of C13 execute the constructor)"""
+        if not vals:
+            return None
+        if any(isinstance(v, (ast.Name, ast.Attribute)) for v in vals):
+            return False
+        return True if all(copying(v) for v in vals) else None
+    vals = init_stores(fs, "chunks")
+    ok = verdict(vals, lambda v: isinstance(v, (ast.ListComp, ast.List)) or
+                 (isinstance(v, ast.Call) and isinstance(v.func, ast.Name) and v.func.id == "list"))
+    out.append(("ctor_copies.FmtStr", "FmtStr.__init__", ok,
+                "" if ok else f"self.chunks = {' / '.join(ast.unparse(v) for v in vals) or '?'} " + ("may alias the argument" if ok is False else "(form not known to the syntactic check)")))
+    vals = init_stores(ck, "_atts")
+    ok = verdict(vals, lambda v: isinstance(v, ast.Call) and isinstance(v.func, ast.Name) and v.func.id == "FrozenAttributes")
+    out.append(("ctor_copies.Chunk", "Chunk.__init__", ok,
+                "" if ok else f"self._atts = {' / '.join(ast.unparse(v) for v in vals) or '?'} " + ("may alias the argument" if ok is False else "(form not known to the syntactic check)")))
     return out
